@@ -14,6 +14,21 @@ fn gen_path(r: &mut Rng, lo: usize, hi: usize) -> Vec<String> {
     (0..r.range(lo, hi)).map(|_| (*r.pick(&NAMES)).to_string()).collect()
 }
 
+/// a key of the library (wildcards replaced by a name), one of its prefixes, or one segment more
+fn key_path(r: &mut Rng, l: &StandardLibrary) -> Vec<String> {
+    if l.globals.is_empty() {
+        return gen_path(r, 1, 4);
+    }
+    let k = l.globals.keys().nth(r.below(l.globals.len())).unwrap().clone();
+    let mut segs: Vec<String> = k.split('.').map(|s| if s == "*" { (*r.pick(&NAMES)).to_string() } else { s.to_string() }).collect();
+    match r.below(4) {
+        0 | 1 => {}
+        2 => segs.truncate(r.range(1, segs.len())),
+        _ => segs.push((*r.pick(&NAMES)).to_string()),
+    }
+    segs
+}
+
 fn structs_closed(l: &StandardLibrary) -> bool {
     let ok = |m: &std::collections::BTreeMap<String, Field>| {
         m.values().all(|f| match &f.field_kind {
@@ -138,7 +153,7 @@ pub fn generate(seed: u64, n: usize, thorough: bool) -> Cases {
                 if !closed {
                     continue;
                 }
-                let np = gen_path(&mut r, 1, 4);
+                let np = if r.chance(1, 2) { key_path(&mut r, &l) } else { gen_path(&mut r, 1, 4) };
                 let src = format!("local _ = {}\n", np.join("."));
                 if let Some(ds) = lint(&l, &src) {
                     let v = ds.iter().find(|(s, _)| *s == 10).map(|(_, m)| verdict_of(m)).unwrap_or("VOk");
@@ -176,7 +191,8 @@ pub fn generate(seed: u64, n: usize, thorough: bool) -> Cases {
                             targets.push("TOther".to_string());
                         }
                         _ => {
-                            let np = gen_path(&mut r, 1, 4);
+                            // half of the paths are the library's own keys: an entry of every writability is assigned directly at every depth
+                            let np = if r.chance(1, 2) { key_path(&mut r, &l) } else { gen_path(&mut r, 1, 4) };
                             lhs.push_str(&np.join("."));
                             targets.push(format!("(TPath {})", glist(np.iter(), |s| gstr(s))));
                         }
